@@ -77,6 +77,8 @@ pub struct Model {
     pub roots: Vec<Oid>,
     pub wroots: Vec<Oid>,
     pub raws: Vec<Oid>,
+    /// Weak handles in raw form (`Weak::into_raw`), NONE = dangling
+    pub wraws: Vec<Oid>,
     /// recorded adoptions owner -> target (multiplicity)
     pub r: BTreeMap<(Oid, Oid), usize>,
     /// loopback records (same-instance adopt)
@@ -118,6 +120,7 @@ impl Model {
 
     pub fn weak(&self, t: Oid) -> usize {
         let mut c = self.wroots.iter().filter(|&&x| x == t).count();
+        c += self.wraws.iter().filter(|&&x| x == t).count();
         for o in &self.objs {
             c += o.wslots.iter().filter(|&&x| x == t).count();
         }
